@@ -5,7 +5,7 @@ import json
 import shutil
 import tempfile
 
-from . import driver
+from . import driver, rtok
 from .extract import AnchorLost
 from .spec import SpecError
 
@@ -90,6 +90,6 @@ def main(argv):
             return 0
         from . import checks
         return checks.main(argv)
-    except (AnchorLost, SpecError, driver.ToolError) as e:
+    except (AnchorLost, SpecError, driver.ToolError, rtok.LexError) as e:
         print('UNDECIDED (exit 2): %s: %s' % (type(e).__name__, e))
         return 2
